@@ -316,11 +316,9 @@ func (ifs *IfStatement) WriteTo(cw *CodeWriter) {
 	ifs.ThenBranch.WriteTo(cw)
 	if ifs.ElseBranch != nil {
 		// With optional semicolons omitted, the one before 'else' is still
-		// required unless the branch ends with a block
-		if cw.PrettyPrint && !cw.WriteSemicolons {
-			if out := cw.Builder.String(); len(out) > 0 && out[len(out)-1] != '}' && out[len(out)-1] != ';' {
-				cw.WriteRune(';')
-			}
+		// required when the branch ends with an expression (not with a block)
+		if cw.PrettyPrint && !cw.WriteSemicolons && endsWithExpression(ifs.ThenBranch) {
+			cw.WriteRune(';')
 		}
 		cw.WriteString(" else ")
 		ifs.ElseBranch.WriteTo(cw)
